@@ -234,7 +234,32 @@ Definition run_beq (r : option str * fs * list (option err)) (w : option str) (f
   let '(w', f', es') := r in ostr_beq w' w && fs_beq f' f && errs_beq es' es.
 
 Definition idenc (s : str) : str := s.
-Definition jw_obs_beq (w : option str) (f : fs) (cs : list (call str)) w' f' es' : bool :=
-  run_beq (jw_run str idenc w f cs) w' f' es'.
-Definition jl_obs_beq (today : str) (w : option str) (f : fs) (cs : list (call str)) w' f' es' : bool :=
-  run_beq (jl_run str idenc today w f cs) w' f' es'.
+
+(* observed file contents are written as pieces that refer to the records of the calls and to
+   the pre-existing contents, so that the generated cases do not repeat those bytes; the harness
+   checks in Python that the pieces concatenate to the bytes it read from the directory *)
+Inductive piece := PLit (s : str) | PRec (i : nat) | PPre (i : nat).
+Fixpoint flatten (recs pres : list str) (ps : list piece) : option str :=
+  match ps with
+  | [] => Some []
+  | p :: r =>
+      match (match p with PLit s => Some s | PRec i => nth_error recs i | PPre i => nth_error pres i end),
+            flatten recs pres r with
+      | Some a, Some b => Some (a ++ b)
+      | _, _ => None
+      end
+  end.
+Definition flatten_files (recs pres : list str) (fl : list (str * list piece)) : option fs :=
+  all_some (map (fun e : str * list piece =>
+                   match flatten recs pres (snd e) with Some c => Some (fst e, c) | None => None end) fl).
+
+Definition jw_obs_beq (w : option str) (f : fs) (cs : list (call str)) w' (fl : list (str * list piece)) es' : bool :=
+  match flatten_files (map c_rec cs) (map snd f) fl with
+  | Some f' => run_beq (jw_run str idenc w f cs) w' f' es'
+  | None => false
+  end.
+Definition jl_obs_beq (today : str) (w : option str) (f : fs) (cs : list (call str)) w' (fl : list (str * list piece)) es' : bool :=
+  match flatten_files (map c_rec cs) (map snd f) fl with
+  | Some f' => run_beq (jl_run str idenc today w f cs) w' f' es'
+  | None => false
+  end.
